@@ -92,6 +92,11 @@ pub fn lib(args: &[String]) -> i32 {
     let mut tok = StatefulTokenizer::new(&dict, Mode::C);
     let splitter = SentenceSplitter::new().with_checker(dict.lexicon());
     for r in reqs.iter() {
+        if r["op"] == "pos" {
+            let list: Vec<Value> = dict.grammar().pos_list.iter().map(|p| json!(p)).collect();
+            tr.emit(json!({"ev": "lib", "op": "pos", "cfg": args[1], "text": [], "res": "ok", "ms": [], "list": list}));
+            continue;
+        }
         let text = from_cps(&r["text"]);
         match r["op"].as_str().unwrap() {
             "tok" => {
